@@ -100,6 +100,6 @@ class VMany(Component):
 
 
 # ports driven symbolically (default: every top-level input)
-SYMBOLIC_PORTS = {'VMany': ['s.in_[0]', 's.in_[97]']}
+SYMBOLIC_PORTS = {'VMany': ['s.in_[0]', 's.in_[97]'], 'VConsts': ['s.a', 's.c']}
 
 DESIGNS = {'VMany': VMany, 'VOnce': VOnce, 'VConsts': VConsts, 'VInc': VInc, 'VReg': VReg, 'VStruct': VStruct, 'VHier': VHier, 'VRegChain': VRegChain}
